@@ -108,7 +108,7 @@ def arr_apply(a, op, log):
 
 def cases(quick=True):
     out = []
-    maxlen = 3 if quick else 4
+    maxlen = 2 if quick else 4
     # Vec
     for init in ([], [1], [1, 2, 3]):
         ops = vec_ops(quick)
